@@ -25,6 +25,9 @@ type c12Event struct {
 	DLen  int    `json:"dlen,omitempty"` // data octets of a received NOTIFICATION
 	// Partial: fin / rst arrive after that many octets of an incomplete message
 	Partial int `json:"partial,omitempty"`
+	// Glued (recv): the last handshake message, the NOTIFICATION and the FIN
+	// arrive in one piece while a plugin callback keeps the FSM goroutine busy
+	Glued bool   `json:"glued,omitempty"`
 	State string `json:"state"`
 	Out   bool   `json:"out"`
 	Both  bool   `json:"both,omitempty"` // the other direction's connection is parked in OpenSent meanwhile
@@ -75,7 +78,7 @@ func c12Prop(t *testing.T, r *hx.Run, subs ...string) func(c c12Case) hx.Verdict
 			if e.Sub != nil {
 				sub = int(*e.Sub)
 			}
-			sig += fmt.Sprintf("%s%d.%d%s%v/%d,", e.Kind, e.Code, sub, e.State[:5], e.Out, e.WaitMs/1000)
+			sig += fmt.Sprintf("%s%d.%d%s%v/%d%v,", e.Kind, e.Code, sub, e.State[:5], e.Out, e.WaitMs/1000, e.Glued)
 		}
 		v := hx.Verdict{Class: fmt.Sprintf("passive=%v/damping=%d/nondamping=%d", c.Passive, min(nd, 3), min(nn, 2))}
 		if nd >= 2 || (nd >= 1 && nn >= 1) {
@@ -85,6 +88,11 @@ func c12Prop(t *testing.T, r *hx.Run, subs ...string) func(c c12Case) hx.Verdict
 		idle, retry := idleMs*time.Millisecond, retryMs*time.Millisecond
 		eps := 50 * time.Millisecond
 		p := world.PeerSpec{Remote: "10.0.0.2", LocalAS: 64512, RemoteAS: 64513, Passive: c.Passive, Hold: 3, IdleHoldMs: idleMs, ConnRetryMs: retryMs}
+		for _, e := range c.Events {
+			if e.Glued {
+				p.Plugin.SpinUs = map[string]int64{"open": 150, "est": 150}
+			}
+		}
 		var dev *hx.Dev
 		fail := func(key, f string, a ...any) {
 			if dev == nil {
@@ -169,11 +177,16 @@ func c12Prop(t *testing.T, r *hx.Run, subs ...string) func(c c12Case) hx.Verdict
 					other = getConn(!out)
 				}
 				state := e.State
-				for _, m := range handshakeBytes(p, cn, state, 3) {
+				hs := handshakeBytes(p, cn, state, 3)
+				var glue []byte
+				if e.Glued && e.Kind == "recv" && len(hs) > 0 {
+					glue, hs = hs[len(hs)-1], hs[:len(hs)-1]
+				}
+				for _, m := range hs {
 					cn.RemoteSend(m, nil)
 					w.Settle()
 				}
-				if state == stEstablished && (cn.Snapshot().LocalClosed || w.Sessions(p.Remote) == 0) {
+				if glue == nil && state == stEstablished && (cn.Snapshot().LocalClosed || w.Sessions(p.Remote) == 0) {
 					fail("setup-state", "%s: could not establish", where)
 					return
 				}
@@ -187,7 +200,13 @@ func c12Prop(t *testing.T, r *hx.Run, subs ...string) func(c c12Case) hx.Verdict
 					if e.Sub != nil {
 						sub = *e.Sub
 					}
-					cn.RemoteSend(wire.Notif{Code: e.Code, Sub: sub, Data: detBytes(e.DLen, uint32(e.Code)*256+uint32(sub))}.Frame(), nil)
+					nf := wire.Notif{Code: e.Code, Sub: sub, Data: detBytes(e.DLen, uint32(e.Code)*256+uint32(sub))}.Frame()
+					if e.Glued {
+						cn.RemoteSend(append(append([]byte{}, glue...), nf...), nil)
+						cn.RemoteClose()
+					} else {
+						cn.RemoteSend(nf, nil)
+					}
 				case "marker":
 					b := wire.Keepalive()
 					b[3] = 0
@@ -363,6 +382,7 @@ func genC12(rt *rapid.T) c12Case {
 				e.Sub = &sub
 				e.DLen = pick(rt, "dlen", 0, 0, 1, 2, 6, 21, 4075)
 			}
+			e.Glued = rapid.IntRange(0, 2).Draw(rt, "glued") == 0
 		case "badopen":
 			e.State = stOpenSent
 		case "handler":
